@@ -447,6 +447,32 @@ func runValCase(idx int, c *valCase) (string, []MonitorHit, map[string]int, bool
 		if ok && code == 0 && must {
 			hit("invalid-block-accepted kind="+names, fmt.Sprintf("ValidateBlock accepts a height-%d block mutated by %s", h, names))
 		}
+		if ok && code == 0 && b.Header != nil && b.Header.Height > 1 && b.LastCommit != nil {
+			// the property itself, recomputed without the model: distinct previous validators, each
+			// in its own slot and with its own key, precommitted the previous block id in one round
+			var have int64
+			round := int64(-1)
+			for i, v := range b.LastCommit.Precommits {
+				if v == nil || i >= last.set.Size() {
+					continue
+				}
+				_, val := last.set.GetByIndex(i)
+				if round < 0 {
+					round = v.Round
+				}
+				if v.Type == types.VoteTypePrecommit && v.Height == b.Header.Height-1 && v.Round == round && v.BlockID.Equals(st.LastBlockID) &&
+					val.PubKey.VerifyBytes(types.SignBytes(valChainID, v), v.Signature) {
+					have += val.VotingPower
+				}
+			}
+			total := int64(0)
+			for _, v := range last.set.Validators {
+				total += v.VotingPower
+			}
+			if !(have*3 > total*2) {
+				hit("accepted-without-two-thirds kind="+names, fmt.Sprintf("ValidateBlock accepts a height-%d block whose last commit carries valid precommits of %d of %d voting power", h, have, total))
+			}
+		}
 	}
 	_ = bytes.Equal
 	stSx := sxL(sxB([]byte(st.ChainID)), sxZ(st.LastBlockHeight), sxBid(bidJ(st.LastBlockID)), sxB(st.AppHash), sxB(st.ReceiptsHash),
